@@ -40,8 +40,13 @@ class ProxStub:
 
 
 class _LinalgV:
+    calls = []       # (ord, rank of the argument, its shape): numpy's norm of a 2-D array with ord=1 is the MATRIX norm
+
     @staticmethod
     def norm(x, ord=None):
+        if ord is not None and getattr(x, "ndim", 1) > 2:
+            raise snp.SValueError("Improper number of dimensions to norm.")
+        _LinalgV.calls.append((core.cur(), ord, getattr(x, "ndim", 0), tuple(getattr(x, "shape", ()))))
         tag = "norm%s<%s>" % (ord, core.fresh_name("a"))
         v = Sym(z3.Real(tag))
         core.define(v.t >= 0)
@@ -533,7 +538,12 @@ def job_l1proj(rank, timeout_ms):
         shape = mk()
         if r.kind != "return":
             return [("no-exception(%s)" % type(r.value).__name__, [], z3.BoolVal(False))]
-        return [_shape_ob(r.value, shape)]
+        # the feasibility test must use the ENTRYWISE l1 norm: numpy gives that for ord=1 only on a 1-D (ravelled) array of all entries
+        mine = [c for c in _LinalgV.calls if c[0] is r.ctx and c[1] == 1]
+        ok = bool(mine) and all(c[2] == 1 for c in mine)
+        size_ok = z3.And(*[core._lift(c[3][0]) == core._lift(snp.prod(shape)) for c in mine if c[2] == 1]) if ok else z3.BoolVal(False)
+        return [_shape_ob(r.value, shape),
+                ("l1-norm-is-taken-entrywise(over the ravelled array of all entries)", [], z3.And(z3.BoolVal(ok), size_ok))]
     obs, covers = path_obligations("C11/L1Proj/rank%d" % rank, results, post, instance="rank%d" % rank, fn_record=rec)
     return check_obligations(obs, timeout_ms) + covers
 
